@@ -13,6 +13,9 @@ def inTol (g : V) (e : I) (atol rtol : Rat) : Bool :=
 
 def iStr (e : I) : String := s!"[{ratStr e.lo},{ratStr e.hi}]"
 
+/-- do two enclosures of the same quantity overlap (up to 2^-60)? -/
+def overlap (p q : I) : Bool := p.lo ≤ q.hi + 1 / pow2 60 && q.lo ≤ p.hi + 1 / pow2 60
+
 def normCDF (mu sigma x : Rat) : I := I.Phi ((x - mu) / sigma)
 
 def handleND (ins outs : List J) : Verdict :=
@@ -84,7 +87,18 @@ def handleTD (ins outs : List J) : Verdict :=
         -- symmetry about 0: the grid is symmetric, so c[i] + c[n-1-i] = 1
         let sym := (c.zip c.reverse).all fun (a, b) => closeR (a + b) 1 (1 / 1000000000) 0
         let isInt := v == ((v.floor : Int) : Rat) && v ≥ 1 && v ≤ 400
-        let refs : List (String × Bool × String) :=
+        let tPDFgen (x : Rat) : I :=
+          let c := I.exp (I.sub (Special.lgammaI ((v + 1) / 2)) (Special.lgammaI (v / 2)))
+          let base : Rat := 1 + x * x / v
+          I.div (I.mul c (I.exp (I.scale (-(v + 1) / 2) (I.logQ base)))) (I.sqrt (I.mul (I.ofRat v) I.pi))
+        let genRefs : List (String × Bool × String) := (xs.zip (p.zip c)).flatMap fun (x, pd, cd) =>
+          match Special.tCDFgen v x with
+          | some ec =>
+            [("t-cdf", inTol (.fin cd) ec (1 / 1000000000) 0, s!"V={ratStr v} x={ratStr x} go={ratStr cd} series reference {iStr ec}"),
+             ("t-pdf", inTol (.fin pd) (tPDFgen x) (1 / pow2 900) (1 / 1000000000), s!"V={ratStr v} x={ratStr x} go={ratStr pd} reference {iStr (tPDFgen x)}")] ++
+            (if isInt then [("reference-consistency", overlap ec (Special.tCDF v.floor.toNat x), s!"V={ratStr v} x={ratStr x}: series {iStr ec} vs closed form {iStr (Special.tCDF v.floor.toNat x)}")] else [])
+          | none => []
+        let refs : List (String × Bool × String) := genRefs ++
           if isInt then
             let nu := v.floor.toNat
             (xs.zip (p.zip c)).flatMap fun (x, pd, cd) =>
@@ -93,7 +107,7 @@ def handleTD (ins outs : List J) : Verdict :=
               [("t-cdf", inTol (.fin cd) ec (1 / 1000000000) 0, s!"V={nu} x={ratStr x} go={ratStr cd} closed form {iStr ec}"),
                ("t-pdf", inTol (.fin pd) ep (1 / pow2 900) (1 / 1000000000), s!"V={nu} x={ratStr x} go={ratStr pd} closed form {iStr ep}")]
           else []
-        verdictOf ("nt t " ++ (if isInt then "integer-V" else "real-V"))
+        verdictOf ("nt t " ++ (if isInt then "integer-V" else "real-V") ++ (if genRefs.isEmpty then " laws-only" else " series-reference"))
           ([("t-cdf-range", range, "CDF outside [0,1]"), ("t-cdf-monotone", mono, "CDF decreases"),
             ("t-pdf-nonnegative", pdfPos, "negative density"), ("t-cdf-symmetric", sym, "CDF(-x)+CDF(x) != 1")] ++ refs)
       | _, _ => .fail "t-finite" "non-finite PDF/CDF value"
@@ -126,13 +140,16 @@ def isHalfR (q : Rat) : Bool := isNatR (2 * q)
 
 /-- reference enclosure for I_x(a,b) on the closed-form slices -/
 def betaRef (x a b : Rat) : Option I :=
-  if isNatR a && isNatR b && a + b ≤ 700 then some (I.ofRat (Special.betaIncInt x a.floor.toNat b.floor.toNat))
+  if isNatR a && isNatR b && a + b ≤ 80 then some (I.ofRat (Special.betaIncInt x a.floor.toNat b.floor.toNat))
   else if b == 1 / 2 && isHalfR a && a ≤ 200 then some (Special.betaIncHalf x (2 * a).floor.toNat)
   else if a == 1 / 2 && isHalfR b && b ≤ 200 then some (I.sub (I.ofRat 1) (Special.betaIncHalf (1 - x) (2 * b).floor.toNat))
   else none
 
+/-- general-parameter reference (Stirling + hypergeometric series) -/
+def betaGen (x a b : Rat) : Option I := if a > 0 && b > 0 then Special.betaRegI x a b else none
+
 def gammaRef (a x : Rat) : Option I :=
-  if isNatR a && a ≤ 400 then some (Special.gammaIncInt a.floor.toNat x)
+  if isNatR a && a ≤ 60 then some (Special.gammaIncInt a.floor.toNat x)
   else if isHalfR a && a ≤ 200 then some (Special.gammaIncHalf (a - 1 / 2).floor.toNat x)
   else none
 
@@ -144,7 +161,10 @@ def handleMX (ins outs : List J) : Verdict :=
       if x < 0 || x > 1 then verdictOf "nt betainc outside" [("betainc-outside", g == .nan, g.str)]
       else match betaRef x a b with
         | some e => verdictOf ("nt betainc reference" ++ (if isNatR a && isNatR b then " integer" else " half")) [("betainc", inTol g e (1 / 1000000000) 0, s!"x={ratStr x} a={ratStr a} b={ratStr b} go={g.str} reference {iStr e}")]
-        | none => verdictOf "nt betainc range" [("betainc-range", (match g with | .fin v => decide (-(1 / 1000000000000) ≤ v ∧ v ≤ 1 + 1 / 1000000000000) | _ => false), g.str)]
+        | none =>
+          match betaGen x a b with
+          | some e => verdictOf "nt betainc general-reference" [("betainc", inTol g e (1 / 1000000000) 0, s!"x={ratStr x} a={ratStr a} b={ratStr b} go={g.str} reference {iStr e}")]
+          | none => verdictOf "nt betainc range" [("betainc-range", (match g with | .fin v => decide (-(1 / 1000000000000) ≤ v ∧ v ≤ 1 + 1 / 1000000000000) | _ => false), g.str)]
     | some _, some _, some _, some g => verdictOf "nt betainc nan" [("betainc-outside", g == .nan, g.str)]
     | _, _, _, _ => .badOp "mx betainc: parse"
   | [.atom "betagrid", aJ, bJ, xsJ], [vsJ, csJ] =>
@@ -157,9 +177,20 @@ def handleMX (ins outs : List J) : Verdict :=
          let mono := (v.zip (v.drop 1)).all fun (p, q) => p ≤ q + 1 / 1000000000
          let comp := (v.zip c).all fun (p, q) => closeR (p + q) 1 (1 / 1000000000) 0
          let ends := (xs.zip v).all fun (x, y) => (x != 0 || y == 0) && (x != 1 || y == 1)
-         let refs := (xs.zip v).filterMap fun (x, y) => (betaRef x a b).map fun e =>
+         let slice := (xs.zip v).filterMap fun (x, y) => (betaRef x a b).map fun e =>
            ("betainc", inTol (.fin y) e (1 / 1000000000) 0, s!"x={ratStr x} a={ratStr a} b={ratStr b} go={ratStr y} reference {iStr e}")
-         verdictOf ("nt betagrid" ++ (if refs.isEmpty then " laws-only" else " reference"))
+         -- general-parameter reference everywhere (and cross-checked against the closed forms on the slices)
+         let lb := Special.lbetaI a b
+         let gen := (xs.zip v).flatMap fun (x, y) =>
+           match (if a > 0 && b > 0 then Special.betaRegIWith lb x a b else none) with
+           | some e =>
+             [("betainc", inTol (.fin y) e (1 / 1000000000) 0, s!"x={ratStr x} a={ratStr a} b={ratStr b} go={ratStr y} general reference {iStr e}")] ++
+             (match betaRef x a b with
+              | some c => [("reference-consistency", overlap e c, s!"x={ratStr x} a={ratStr a} b={ratStr b}: series {iStr e} vs closed form {iStr c}")]
+              | none => [])
+           | none => []
+         let refs := slice ++ gen
+         verdictOf ("nt betagrid" ++ (if slice.isEmpty then " general-reference" else " slice-reference"))
            ([("betainc-range", range, "outside [0,1]"), ("betainc-monotone", mono, s!"a={ratStr a} b={ratStr b} not monotone in x"),
              ("betainc-complement", comp, s!"a={ratStr a} b={ratStr b}: I_x(a,b)+I_(1-x)(b,a) != 1"), ("betainc-ends", ends, "I_0 != 0 or I_1 != 1")] ++ refs)
        | _, _ => .fail "betainc-finite" "non-finite value inside the stated range")
@@ -177,9 +208,19 @@ def handleMX (ins outs : List J) : Verdict :=
         let range := good.all fun (_, p, q) => decide (-(1 / 1000000000000) ≤ p ∧ p ≤ 1 + 1 / 1000000000000 ∧ -(1 / 1000000000000) ≤ q ∧ q ≤ 1 + 1 / 1000000000000)
         let sum1 := good.all fun (_, p, q) => closeR (p + q) 1 (1 / 1000000000) 0
         let mono := (good.zip (good.drop 1)).all fun ((x1, p1, q1), (x2, p2, q2)) => x1 > x2 || (p1 ≤ p2 + 1 / 1000000000 && q2 ≤ q1 + 1 / 1000000000)
-        let refs := good.filterMap fun (x, p, _) => (gammaRef a x).map fun e =>
+        let slice := good.filterMap fun (x, p, _) => (gammaRef a x).map fun e =>
           ("gammainc", inTol (.fin p) e (1 / 1000000000) 0, s!"a={ratStr a} x={ratStr x} go={ratStr p} reference {iStr e}")
-        verdictOf ("nt gammagrid" ++ (if refs.isEmpty then " laws-only" else " reference"))
+        let lg := Special.lgammaI (a + 1)
+        let gen := good.flatMap fun (x, p, _) =>
+          match Special.gammaRegIWith lg a x with
+          | some e =>
+            [("gammainc", inTol (.fin p) e (1 / 1000000000) 0, s!"a={ratStr a} x={ratStr x} go={ratStr p} general reference {iStr e}")] ++
+            (match gammaRef a x with
+             | some c => [("reference-consistency", overlap e c, s!"a={ratStr a} x={ratStr x}: series {iStr e} vs closed form {iStr c}")]
+             | none => [])
+          | none => []
+        let refs := slice ++ gen
+        verdictOf ("nt gammagrid" ++ (if slice.isEmpty then " general-reference" else " slice-reference"))
           ([("gammainc-nan", nanOk, "expected NaN for x < 0 or NaN"), ("gammainc-finite", allFin, "non-finite value for valid arguments"),
             ("gammainc-range", range, "outside [0,1]"), ("gammainc-sum", sum1, s!"a={ratStr a}: P+Q != 1"),
             ("gammainc-monotone", mono, s!"a={ratStr a}: not monotone in x")] ++ refs)
